@@ -132,6 +132,12 @@ def generate(rng, tier):
     nrand = 500 if tier == "quick" else 6000
     for j in range(nrand):
         c = _rand_net(rng, big=(tier != "quick" and j % 5 == 0))
+        if j % 7 == 3 and c["jds"]:
+            # the annotations have MORE components than topology names were requested: the matrices of the requested
+            # topologies must not depend on that (excess tuples keep every component)
+            extra = rng.randint(1, 2)
+            for jd in c["jds"]:
+                jd.extend(rng.randint(0, 2) for _ in range(extra))
         yield c
     # malformed stream: one annotation too short
     for _ in range(20 if tier == "quick" else 200):
